@@ -26,7 +26,7 @@ LEVEL_NOTE = "Trusted: winding-number membership; exact equality for the value 0
 def budget(tier):
     if tier == "quick":
         return dict(max_examples=140, workers=6, time_s=170, min_cases=50)
-    return dict(max_examples=3000, workers=16, time_s=1200, min_cases=800)
+    return dict(max_examples=3000, workers=16, time_s=1200, min_cases=100)
 
 
 @st.composite
